@@ -83,14 +83,30 @@ Proof.
   destruct (bz >? end_time s); reflexivity.
 Qed.
 
+(* comparisons of integers, whichever way the guards are written *)
+Ltac zb :=
+  repeat match goal with
+         | |- context [Z.leb ?a ?b] => destruct (Z.leb_spec a b)
+         | |- context [Z.ltb ?a ?b] => destruct (Z.ltb_spec a b)
+         | |- context [Z.gtb ?a ?b] => destruct (Z.gtb_spec a b)
+         | |- context [Z.geb ?a ?b] => destruct (Z.geb_spec a b)
+         end; cbn; try reflexivity; try lia.
+
+Lemma start_checks_raw s :
+  start_checks s =
+  negb (rs_running (rs s)) && (match rep s with Some _ => true | None => false end)
+  && rs_initialized (rs s) && ps_runnable (ps s) && negb (past_end s).
+Proof.
+  unfold start_checks, past_end. rewrite running_rs.
+  destruct (rs s), (ps s), (rep s); cbn; zb.
+Qed.
+
 Lemma start_checks_table s :
   (rs_initialized (rs s) = true -> rep s <> None) ->
   start_checks s =
   negb (rs_running (rs s)) && rs_initialized (rs s) && ps_runnable (ps s) && negb (past_end s).
 Proof.
-  intros Hrep. unfold start_checks, past_end. rewrite running_rs.
-  replace (clock s <? end_time s) with (negb (end_time s <=? clock s))
-    by (destruct (Z.leb_spec (end_time s) (clock s)), (Z.ltb_spec (clock s) (end_time s)); cbn; lia || reflexivity).
+  intros Hrep. rewrite start_checks_raw.
   destruct (rep s) eqn:Er.
   - destruct (rs s), (ps s); reflexivity.
   - destruct (rs s) eqn:Ers; cbn in *; try (exfalso; apply Hrep; reflexivity);
@@ -102,9 +118,7 @@ Lemma step_checks_table s :
   negb (rs_running (rs s)) && rs_initialized (rs s) && ps_runnable (ps s) && negb (past_end s).
 Proof.
   unfold step_checks, past_end. rewrite running_rs.
-  replace (clock s <? end_time s) with (negb (end_time s <=? clock s))
-    by (destruct (Z.leb_spec (end_time s) (clock s)), (Z.ltb_spec (clock s) (end_time s)); cbn; lia || reflexivity).
-  destruct (rs s), (ps s); reflexivity.
+  destruct (rs s), (ps s); cbn; zb.
 Qed.
 
 Theorem accept_refuse_table_inv fuel p s c :
@@ -121,8 +135,7 @@ Proof.
       destruct (negb (rs_running (rs s)) && rs_initialized (rs s) && ps_runnable (ps s)) eqn:E1;
         cbn [andb]; [|reflexivity].
       unfold past_end, end_time. rewrite Er.
-      destruct (Z.leb_spec (r_end r) (clock s)); cbn [negb andb]; [reflexivity|].
-      destruct (Z.ltb_spec (r_end r) (clock s)); [lia|reflexivity].
+      destruct (Z.ltb_spec (r_end r) (clock s)); reflexivity.
     + cbn [snd]. destruct (rs s) eqn:Ers; cbn in *;
         try (exfalso; apply Hrep; reflexivity); reflexivity.
   - unfold do_step. rewrite step_checks_table.
@@ -833,14 +846,14 @@ Qed.
 Lemma start_checks_inv s :
   start_checks s = true ->
   running s = false /\ (exists r, rep s = Some r) /\ ps_runnable (ps s) = true /\
-  clock s < end_time s.
+  clock s <= end_time s.
 Proof.
-  unfold start_checks. intros H.
+  rewrite start_checks_raw, running_rs. unfold past_end. intros H.
   apply andb_true_iff in H. destruct H as [H H5]. apply andb_true_iff in H. destruct H as [H H4].
   apply andb_true_iff in H. destruct H as [H H3]. apply andb_true_iff in H. destruct H as [H1 H2].
-  apply negb_true_iff in H1. apply Z.ltb_lt in H5.
+  apply negb_true_iff in H1. apply negb_true_iff in H5. apply Z.ltb_ge in H5.
   split; [exact H1|]. split; [destruct (rep s) as [r|]; [exists r; reflexivity|discriminate]|].
-  split; [destruct (ps s); auto|exact H5].
+  split; [exact H4|exact H5].
 Qed.
 
 Lemma do_start_QI fuel p s m b i s1 res :
@@ -921,13 +934,12 @@ Proof. unfold new_ntfs. rewrite Nat.sub_diag. reflexivity. Qed.
 Lemma step_checks_inv s :
   step_checks s = true ->
   running s = false /\ rs_initialized (rs s) = true /\ ps_runnable (ps s) = true /\
-  clock s < end_time s.
+  clock s <= end_time s.
 Proof.
-  unfold step_checks. intros H.
+  rewrite step_checks_table, running_rs. unfold past_end. intros H.
   apply andb_true_iff in H. destruct H as [H H4]. apply andb_true_iff in H. destruct H as [H H3].
   apply andb_true_iff in H. destruct H as [H1 H2].
-  apply negb_true_iff in H1. apply Z.ltb_lt in H4.
-  split; [exact H1|]. split; [destruct (rs s); auto|]. split; [destruct (ps s); auto|exact H4].
+  apply negb_true_iff in H1. apply negb_true_iff in H4. apply Z.ltb_ge in H4. auto.
 Qed.
 
 (* step(): START, at most one event (TIME_CHANGED always), STOP *)
